@@ -136,6 +136,10 @@ func (x *XmlNode) field(m meta.Leafable) (string, bool) {
 // leafContent is the text of a leaf element. White space is part of the value
 // of a string, for every other type it is insignificant.
 func (x *XmlNode) leafContent(m meta.Leafable) string {
+	if t := m.Type(); t.Format().Single() == val.FmtLeafRef && t.Resolve().Format().Single() == val.FmtString {
+		// reference to a string leaf holds the same strings
+		return string(x.Content)
+	}
 	if m.Type().Format().Single() == val.FmtString {
 		return string(x.Content)
 	}
